@@ -12,9 +12,14 @@ DRIVER = "Driver/C06.lean"
 OBLIGATIONS = ["NiftyVerif.C06." + t for t in (
     "weight_spec", "integrate_eq_sum_weight", "mean_eq_integrate_div_volume", "var_eq_mean_sq_dev",
     "vdot_conj_linear", "vdot_partial_eq_sum", "total_volume_mul", "multifield_op_keywise", "multifield_norm",
-    "domain_mismatch_rejected", "domain_mismatch_rejected_vdot", "total_volume_fibre", "mean_eq_weighted_average", "mean_weighted", "var_eq_weighted_variance",
+    "domain_mismatch_rejected", "domain_mismatch_rejected_vdot", "total_volume_fibre", "mean_eq_weighted_average",
+    "mean_weighted", "var_eq_weighted_variance", "structured_volume_consistent",
+    "evalBin_spec", "pointwise_binop_elementwise", "pointwise_scalar_elementwise", "pointwise_unary", "clip_spec",
+    "multifield_pointwise", "all_any_size_spec", "multifield_vdot", "multifield_vdot_conj_linear",
+    "flexible_addsub_spec", "field_norm", "prod_partial_total", "scalar_variants", "scalar_var",
     "weight_spec_driver", "integrate_driver", "mean_driver", "var_driver", "vdot_driver",
-    "mean_weighted_driver", "var_weighted_driver")]
+    "mean_weighted_driver", "var_weighted_driver", "pointwise_driver", "multifield_vdot_driver", "all_any_size_driver",
+    "scalar_variants_driver")]
 RULE = ("a case = DomainTuple(s) built with the repo's constructors (RGSpace dyadic distances, UnstructuredDomain, "
         "PowerSpace, DOFSpace, LMSpace, GLSpace, HPSpace; 0-3 sub-domains) + int/float/complex data (small integers / "
         "dyadic) + one public Field/MultiField method call with one `spaces` value (every subset of sub-domains is "
@@ -28,6 +33,9 @@ TRUSTED_BASE = [
     "hand-written model lean/NiftyVerif/Model/Field.lean of field.py / multi_field.py / domain_tuple.py volume logic, "
     "tied by differential execution on every run (class E exact, class F volumes of GLSpace/HPSpace shipped as exact "
     "dyadic rationals, class T 1e-9 for mean/var/std/norm(2)/negative powers/inexact volumes)",
+    "hypothesis VolConsistent for GLSpace / HPSpace: domain.total_volume (4*np.pi resp. size*pi/(3 nside^2)) equals the "
+    "sum of domain.dvol; a theorem for StructuredDomain's own formula, for these two classes assumed by the "
+    "weighted-average theorems and checked numerically (1e-12 relative) on every generated GLSpace/HPSpace",
     "harness: generators, canonicalisation, independent NumPy oracle (harness/props/c06.py, _c06_lib.py)"]
 ASSUMPTIONS = [
     "IEEE rounding and NumPy/ducc summation order are outside the model: only inputs on which every float operation is "
@@ -46,6 +54,9 @@ DOF_W = ["1/4", "1/2", "1", "2", "3", "3/2"]
 # generators
 # ----------------------------------------------------------------------------------------------------------
 def gen_sub(rng, budget):
+    if rng.random() < 0.15:   # unit axes: sub-domains of size 1 with shapes (1,) and (1, 1)
+        return rng.choice([["RG", [1], ["1/2"], False], ["RG", [1, 1], ["1/2", "3/2"], False], ["U", [1]], ["U", [1, 1]],
+                           ["DOF", ["3/2"]], ["GL", 1, 1], ["PSLM", 0], ["LM", 0], ["PS", ["RG", [1], ["2"], True]]]), 1
     for _ in range(50):
         t = rng.choice(["RG", "RG", "U", "U", "PS", "PS", "DOF", "DOF", "GL", "HP", "LM", "PSLM"])
         if t == "RG":
@@ -83,8 +94,18 @@ def gen_sub(rng, budget):
 
 
 def gen_dom(rng, nsub=None, budget=48):
+    if nsub is None and rng.random() < 0.12:
+        # template: a 2-axis regular grid + a sub-domain with array-valued dvol + a third one, in random order —
+        # the only constellation in which the non-uniform var path broadcasts a mean back over a multi-axis sub-domain
+        a = ["RG", [rng.randint(1, 3), rng.randint(2, 3)], [rng.choice(DYADIC_DIST), rng.choice(DYADIC_DIST)], rng.random() < 0.3]
+        b = rng.choice([["DOF", [rng.choice(DOF_W) for _ in range(rng.randint(1, 3))]], ["PSLM", rng.randint(0, 2)],
+                        ["GL", rng.randint(1, 2), 2], ["PS", ["RG", [rng.randint(2, 4)], [rng.choice(DYADIC_DIST)], True]]])
+        c, _ = gen_sub(rng, 3)
+        rec = [a, b, c]
+        rng.shuffle(rec)
+        return rec
     if nsub is None:
-        nsub = rng.choice([0, 1, 1, 2, 2, 2, 3, 3])
+        nsub = rng.choice([0, 1, 1, 2, 2, 2, 3, 3, 3])
     rec, left = [], budget
     for _ in range(nsub):
         r, size = gen_sub(rng, max(1, left))
@@ -156,6 +177,10 @@ def gen_case(rng, kind="field"):
     # a different domain: same shape where possible (only the distances / kind differ), else any other
     other = mutate_dom(rng, rec)
     fields.append(dict(gen_data(rng, dom_size(other), dt, mode), dom=1))
+    if rng.random() < 0.25:          # 4-byte dtypes (int32 / float32 / complex64); field 1 sometimes stays 8-byte
+        for k, fd in enumerate(fields):
+            if k != 1 or rng.random() < 0.5:
+                fd["p"] = 4
     case = {"doms": [rec, other], "fields": fields, "mfields": [], "ops": []}
     ops = case["ops"]
     for sub in L.subsets(n):
@@ -186,6 +211,8 @@ def gen_case(rng, kind="field"):
         if name not in ("truediv", "floordiv"):
             f_idx = 3 if name == "pow" else 0
             ops.append({"op": "bins", "name": name, "f": f_idx, "c": gen_scalar(rng, "rpow" if name == "pow" else name, dt), "rev": True})
+    for lo, hi in gen_bounds(rng, dt):
+        ops.append({"op": "clip", "f": 0, "lo": lo, "hi": hi})
     ops.append({"op": "unite", "f": 0, "g": 1})
     ops.append({"op": "flexible_addsub", "f": 0, "g": 1, "neg": True})
     ops.append({"op": "flexible_addsub", "f": 1, "g": 0, "neg": False})
@@ -199,6 +226,14 @@ def gen_case(rng, kind="field"):
     ops.append({"op": "vdot", "f": 0, "g": 4, "spaces": None, "bad": "domain"})
     ops.append({"op": "vdot", "f": 4, "g": 0, "spaces": [0] if n else [], "bad": "domain"})
     ops.append({"op": "s_vdot", "f": 0, "g": 4, "bad": "domain"})
+    for sp in odd_spaces(rng, n):
+        for name in rng.sample(L.CONTRACTIONS + ["weight", "vdot", "total_volume", "scalar_weight"], 4):
+            o = {"op": name, "f": 0, "spaces": sp, "bad": "spaces-odd"}
+            if name == "weight":
+                o["power"] = rng.choice([1, 2])
+            if name == "vdot":
+                o["g"] = 1
+            ops.append(o)
     for sp in bad_spaces(rng, n):
         name = rng.choice(L.CONTRACTIONS + ["weight", "vdot", "total_volume", "scalar_weight"])
         o = {"op": name, "f": 0, "spaces": sp, "bad": "spaces"}
@@ -208,6 +243,22 @@ def gen_case(rng, kind="field"):
             o["g"] = 1
         ops.append(o)
     return case
+
+
+def gen_bounds(rng, dt):
+    """clip bounds [value, kind] (lo <= hi), one of them may be missing"""
+    out = []
+    for _ in range(2):
+        a, b = sorted([rng.randint(-6, 6), rng.randint(-6, 6)])
+        kind = rng.choice(["i", "f"])
+        lo = [L.frs(Fraction(a, 2)) if kind == "f" else str(a // 2), kind]
+        kind = rng.choice(["i", "f"])
+        hi = [L.frs(Fraction(b + 1, 2)) if kind == "f" else str((b + 1) // 2 + 1), kind]
+        if Fraction(lo[0]) > Fraction(hi[0]):
+            lo, hi = [hi[0], hi[1]], [lo[0], lo[1]]
+        r = rng.random()
+        out.append((None, hi) if r < 0.2 else ((lo, None) if r < 0.4 else (lo, hi)))
+    return out
 
 
 def gen_scalar(rng, name, dt):
@@ -265,6 +316,21 @@ def bad_spaces(rng, n):
     return out
 
 
+def odd_spaces(rng, n):
+    """tuples mixing negative / too large indices with valid ones: parse_spaces only looks at the first and last
+    element of tuple(set(spaces)), so some of them are accepted (Python then resolves negative indices)"""
+    out = []
+    for _ in range(6):
+        k = rng.randint(2, 4)
+        t = [rng.randint(-n - 1, n + 1) if rng.random() < 0.8 else rng.choice([8, 9, 15, -9]) for _ in range(k)]
+        if any(i < 0 or i >= n for i in t):
+            out.append(t)
+    for t in ([0, -1], [n - 1, -1], [0, -n], [1, -1], [0, 1, -1], [0, -2, 2], [n, 0], [9, 1], [1, 9]):
+        if n >= 1 and rng.random() < 0.5:
+            out.append(list(t))
+    return out
+
+
 def gen_mcase(rng):
     """MultiFields a, b on the same MultiDomain, c with the same keys on another, d with another key set"""
     nk = rng.choice([1, 2, 2, 3])
@@ -279,6 +345,7 @@ def gen_mcase(rng):
         else:
             doms.append(gen_dom(rng, budget=12))
     sizes = [dom_size(r) for r in doms]
+    lowp = rng.random() < 0.25
     mf = []
     for which in range(4):  # a, b: data; u: units; e: exponents
         idxs = []
@@ -289,7 +356,7 @@ def gen_mcase(rng):
                 fd = gen_exponents(rng, sizes[k], dts[k])
             else:
                 fd = gen_data(rng, sizes[k], dts[k] if which == 0 else rng.choice(["i", "f", "c"]), mode)
-            fields.append(dict(fd, dom=k))
+            fields.append(dict(fd, dom=k, **({"p": 4} if lowp and (k + which) % 3 != 2 else {})))
             idxs.append(len(fields) - 1)
         mf.append({"keys": keys, "leaves": idxs})
     # c: same keys, one leaf on a different domain
@@ -317,6 +384,8 @@ def gen_mcase(rng):
         ops.append({"op": "ms_vdot", "a": a, "b": b})
     ops.append({"op": "ms_sum", "a": 0})
     ops.append({"op": "msize", "a": 0})
+    for lo, hi in gen_bounds(rng, "f")[:1]:
+        ops.append({"op": "mclip", "a": 0, "lo": lo, "hi": hi})
     for a in (0, 1, 3):
         ops.append({"op": "ms_all", "a": a})
         ops.append({"op": "ms_any", "a": a})
@@ -346,6 +415,8 @@ def op_exact(case, op):
     name = op["op"]
     if name not in L.E_OPS:
         return False
+    if L.low_precision(case):
+        return False  # 4-byte dtypes: 24-bit mantissa, class T with 1e-4 (cancelling sums over inexact GL/HP volumes)
     if name in ("integrate", "s_integrate", "total_volume", "scalar_weight", "weight"):
         rec = case["doms"][case["fields"][op["f"]]["dom"]]
         if not all(L.nice_recipe(r) for r in rec):
@@ -408,11 +479,31 @@ def valid_spaces(sp, n):
     return all(isinstance(i, int) and 0 <= i < n for i in t) and len(set(t)) == len(t)
 
 
-def _allclose(a, b):
+def _allclose(a, b, tol=1e-9):
     a, b = np.asarray(a), np.asarray(b)
     if a.shape != b.shape:
         return False
-    return bool(np.allclose(a, b, rtol=1e-9, atol=1e-9, equal_nan=True))
+    return bool(np.allclose(a, b, rtol=tol, atol=tol, equal_nan=True))
+
+
+# operations whose NumPy reference is the very same array operation on the same dtype: the result dtype must agree
+SAME_DTYPE_OPS = {"sum", "prod", "all", "any", "un", "bin", "bins", "scale", "clip", "unite", "flexible_addsub",
+                  "s_sum", "s_prod", "s_all", "s_any"}
+# volume operations keep the precision of floating input (float32 stays float32, complex64 stays complex64 / float32)
+# (mean/var/std over non-scalar volumes multiply by the NumPy scalar 1/total_volume and come out in double precision)
+KEEP_PRECISION_OPS = {"weight", "integrate"}
+
+
+def dtype_mismatch(name, res_dtype, ref_dtype, in_dtype):
+    if name in SAME_DTYPE_OPS:
+        return None if res_dtype == ref_dtype else f"dtype {res_dtype}, NumPy gives {ref_dtype}"
+    if name == "scale_same":   # scale(1) hands back the field itself
+        return None if res_dtype == in_dtype else f"dtype {res_dtype} for scale(1) of {in_dtype}"
+    if name in KEEP_PRECISION_OPS and in_dtype.kind in "fc":
+        want = 4 if in_dtype in (np.dtype(np.float32), np.dtype(np.complex64)) else 8
+        have = res_dtype.itemsize // (2 if res_dtype.kind == "c" else 1)
+        return None if (res_dtype.kind in "fc" and have == want) else f"dtype {res_dtype} for input dtype {in_dtype}"
+    return None
 
 
 def expected_numpy(built, op):
@@ -506,6 +597,8 @@ def expected_numpy(built, op):
         return ("value", r, list(range(n)))
     if name == "scale":
         return ("value", L.py_scalar(op["c"]) * a, list(range(n)))
+    if name == "clip":
+        return ("value", np.clip(a, L.py_bound(op.get("lo")), L.py_bound(op.get("hi"))), list(range(n)))
     if name in ("unite", "flexible_addsub"):
         g = built.fields[op["g"]]
         if g.domain is not dom:
@@ -554,6 +647,8 @@ def expected_multi(built, op):
         except Exception as e:  # noqa: BLE001
             return ("raises", type(e).__name__)
         return ("mvalue", out)
+    if name == "mclip":
+        return ("mvalue", {k: np.clip(arrs[k], L.py_bound(op.get("lo")), L.py_bound(op.get("hi"))) for k in keys})
     if name == "mun":
         u = op["name"]
         if u == "imag" and any(a.dtype.kind != "c" for a in arrs.values()):
@@ -592,7 +687,7 @@ def check_op(built, op):
     except Exception as e:  # noqa: BLE001
         err = type(e).__name__
     sig = {"op": name if "name" not in op else f"{name}:{op['name']}"}
-    label = f"{sig['op']}({', '.join(f'{k}={op[k]}' for k in ('spaces', 'power', 'ord', 'c', 'rev') if k in op)})"
+    label = f"{sig['op']}({', '.join(f'{k}={op[k]}' for k in ('spaces', 'power', 'ord', 'c', 'rev', 'lo', 'hi') if k in op)})"
     if exp[0] == "raises":
         if err is None:
             return (f"{label}: operands on different domains (or an operation NumPy refuses) were accepted",
@@ -615,8 +710,11 @@ def check_op(built, op):
         if not isinstance(res, ift.MultiField) or list(res.keys()) != list(exp[1].keys()):
             return (f"{label}: result is not a MultiField over the same keys", dict(sig, kind="type"))
         for k, v in exp[1].items():
-            if not _allclose(res[k].val.asnumpy(), v):
+            if not _allclose(res[k].val.asnumpy(), v, 1e-4 if L.low_precision(built.case) else 1e-9):
                 return (f"{label}: leaf '{k}' differs from the key-wise array operation", dict(sig, kind="value"))
+            if name in ("mbin", "mbins", "mun", "mclip", "mflex") and res[k].val.asnumpy().dtype != np.asarray(v).dtype:
+                return (f"{label}: leaf '{k}' has dtype {res[k].val.asnumpy().dtype}, NumPy gives {np.asarray(v).dtype}",
+                        dict(sig, kind="dtype"))
             src = built.mfields[op["a"]] if k in built.mfields[op["a"]] else built.mfields[op["b"]]
             if res[k].domain is not src[k].domain:
                 return (f"{label}: leaf '{k}' changed its domain", dict(sig, kind="domain"))
@@ -636,10 +734,18 @@ def check_op(built, op):
         return None
     if np.max(np.abs(np.asarray(val, dtype=np.complex128)), initial=0.0) > 2.0 ** 50:
         return None
+    tol = 1e-4 if L.low_precision(built.case) else 1e-9
     try:
-        same = _allclose(got.reshape(np.asarray(val).shape) if got.size == np.asarray(val).size else got, val)
+        same = _allclose(got.reshape(np.asarray(val).shape) if got.size == np.asarray(val).size else got, val, tol)
     except Exception:  # noqa: BLE001 - a result that cannot even be compared with an array is a wrong result
         same = False
+    if same and not multi:
+        nm = name
+        if name == "scale" and L.py_scalar(op["c"]) == 1:
+            nm = "scale_same"
+        dm = dtype_mismatch(nm, np.asarray(got).dtype, np.asarray(val).dtype, built.arrays[op["f"]].dtype)
+        if dm is not None:
+            return (f"{label}: result has {dm}", dict(sig, kind="dtype"))
     if not same:
         return (f"{label} differs from the NumPy computation with the domain's volume factors",
                 dict(sig, kind="value", dtype=("m" if multi else built.case["fields"][op["f"]]["dt"])))
@@ -670,6 +776,15 @@ def check_vdot_laws(built):
 
 def oracle(case):
     built = L.Built(case)
+    if case.get("volume"):
+        for rec, dom in zip(case["doms"], built.doms):
+            for r, d in zip(rec, dom):
+                dv = d.dvol
+                tot = float(d.size * dv) if np.isscalar(dv) else float(np.sum(dv))
+                if not abs(float(d.total_volume) - tot) <= 1e-12 * abs(tot):
+                    return (f"{d!r}: total_volume differs from the sum of its volume factors",
+                            {"kind": "volume", "domain": r[0]})
+        return None
     for op in case["ops"]:
         r = check_op(built, op)
         if r is not None:
@@ -712,10 +827,34 @@ def load_corpus():
     return out
 
 
-def run_cases(ctx, cases):
+def check_volume_hypothesis(ctx, case, built):
+    """trusted-base hypothesis of the weighted-average theorems (VolConsistent): total_volume = sum of dvol for the
+    domain classes whose total_volume is not StructuredDomain's formula on exact numbers (GLSpace, HPSpace)"""
+    for rec, dom in zip(case["doms"], built.doms):
+        for r, d in zip(rec, dom):
+            if L.nice_recipe(r):
+                continue
+            dv = d.dvol
+            tot = float(d.size * dv) if np.isscalar(dv) else float(np.sum(dv))
+            ctx.stat("hypothesis:total_volume=sum(dvol):" + r[0])
+            if not abs(float(d.total_volume) - tot) <= 1e-12 * abs(tot):
+                ctx.broke("correspondence", "hypothesis total_volume = sum(dvol) fails for " + repr(d),
+                          f"total_volume={float(d.total_volume)!r} sum(dvol)={tot!r}")
+                ctx.counterexample({"doms": [[r]], "fields": [], "mfields": [], "ops": [], "volume": True},
+                                   f"{d!r}: total_volume {float(d.total_volume)!r} differs from the sum of its volume "
+                                   f"factors {tot!r}", {"kind": "volume", "domain": r[0]})
+
+
+def run_cases(ctx, cases, set_tuples=()):
     builts = [L.Built(c) for c in cases]
     lines = [L.model_case(c, b) for c, b in zip(cases, builts)]
-    outs = ctx.model(DRIVER, lines)
+    outs = ctx.model(DRIVER, lines + [{"setorder": list(t)} for t in set_tuples])
+    # the transcription of CPython's set iteration order (parse_spaces depends on it) against the interpreter itself
+    for t, out in zip(set_tuples, outs[len(lines):]):
+        real = [int(i) for i in tuple(set(tuple(t)))]
+        ctx.stat("setorder-tuples")
+        ctx.compare({"setorder": list(t)}, {"order": real}, out, note="tuple(set(spaces)) iteration order",
+                    nontrivial=len(set(t)) > 1)
     for case, built, out in zip(cases, builts, outs):
         if "res" not in out:
             ctx.broke("correspondence", "model driver rejected a case", str(out)[:300])
@@ -736,23 +875,26 @@ def run_cases(ctx, cases):
                 continue
             impl = L.run_impl(built, op)
             exact = op_exact(case, op)
-            ok = L.agree(impl, m, exact)
+            ok = L.agree(impl, m, exact, 1e-4 if L.low_precision(case) else L.TOL)
             ctx.stat("op:" + opname)
             ctx.stat("class:" + ("E" if exact else "T"))
             if "error" in m:
                 ctx.stat("error:" + m["error"])
             if op.get("bad"):
                 ctx.stat("malformed:" + op["bad"])
+                if op["bad"] == "spaces-odd" and "error" not in m:
+                    ctx.stat("odd-spaces-accepted:" + op["op"])
             ctx.compare(one, m if ok else impl, m, note=f"C06 {opname}: real code vs Lean model",
                         nontrivial=("error" not in m) and size > 1)
             r = check_op(built, op)
             if r is not None:
                 ctx.counterexample(one, *r)
+        check_volume_hypothesis(ctx, case, built)
         ctx.stat("nsub:%d" % len(case["doms"][0]))
         for rcp in case["doms"][0]:
             ctx.stat("sub:" + rcp[0])
         for fd in case["fields"][:1]:
-            ctx.stat("dtype:" + fd["dt"])
+            ctx.stat("dtype:" + fd["dt"] + str(fd.get("p", 8)))
         if case.get("laws"):
             r = check_vdot_laws(built)
             if r is not None:
@@ -768,9 +910,13 @@ def run(ctx):
         cases.append(c)
     for _ in range(nm):
         cases.append(gen_mcase(ctx.rng))
+    tuples = []
+    for _ in range(ctx.n(400, 6000)):
+        lo, hi = ctx.rng.choice([(-4, 6), (-12, 40), (-3, 3), (-40, 300), (-1, 9)])
+        tuples.append([ctx.rng.randint(lo, hi) for _ in range(ctx.rng.randint(1, 14))])
     chunk = 200                    # few driver starts: each one elaborates the driver (seconds)
     for i in range(0, len(cases), chunk):
-        run_cases(ctx, cases[i:i + chunk])
+        run_cases(ctx, cases[i:i + chunk], tuples if i == 0 else ())
 
 
 def search(ctx):
